@@ -54,6 +54,14 @@ def cases(tier, seed):
                 for kind in ("posreal", "quat"):
                     for row in range(rows):
                         out.append({"key": f"hess/k={k}/z={mask:0{k}b}/zc={zc}/{kind}/row={row}", "grp": "hess", "k": k, "mask": mask, "zc": zc, "kind": kind, "row": row})
+    for k in range(1, 4):
+        for mask in G.COMPONENT_MASKS:
+            for zmask in (0, 1, 2):
+                out.append({"key": f"hessmask/k={k}/{G.mask_name(mask)}/z={zmask}", "grp": "hess", "k": k, "mask": zmask if k > 1 else 0, "zc": None, "kind": "quat", "row": 0, "cmask": mask})
+    for solver in ("Utriangle", "upper", "lower"):
+        for n in (2, 3, 4):
+            for pat in ("rev_identity", "first_col_zero", "leading_zero_rows", "trailing_zero_rows", "single_entry"):
+                out.append({"key": f"solve/{solver}/n={n}/rhs={pat}", "grp": "solve", "solver": solver, "n": n, "nrhs": n, "sc": "1", "single": None, "rhs": pat})
     scales = ["2^-20", "1e-6", "1", "1e6", "2^20"]
     for solver in ("Utriangle", "upper", "lower", "Utriangle_via_tq"):
         if solver == "Utriangle_via_tq":
@@ -146,6 +154,15 @@ def run_case(case, seed):
                 H[j + 1, j] = 0.0
         if case["zc"] is not None:
             H[:, case["zc"]] = 0.0
+        if case.get("cmask"):
+            Hm = fill.quat_int(m, k, -3, 3).astype(float)
+            Hm[Hm == 0] = 2.0
+            for i in range(m):
+                Hm[i, : max(i - 1, 0)] = 0.0
+            H = G.apply_component_mask(Hm, case["cmask"])
+            for j in range(k):
+                if (case["mask"] >> j) & 1 and j > 0:
+                    H[j + 1, j] = 0.0
         tags = {"grp": "hess", "k": k, "kind": case["kind"]}
         Hs = np.vstack(comps(H))
         ok, res = call(u.Hess_QR_ggivens, Hs.copy())
@@ -200,6 +217,24 @@ def run_case(case, seed):
             T[i, :i] = 0.0
         T[i, i] = G.SIGNED_UNITS[(i * 3 + n) % 8].astype(float) * 2.0 + np.array([0, 0.5, 0, 0.25])  # modulus ~2: well conditioned
     B = fill.quat(n, nrhs, bits=3, lo=-16, hi=16)
+    pat = case.get("rhs")
+    if pat == "rev_identity":
+        B = np.zeros((n, nrhs, 4))
+        for i in range(n):
+            B[i, n - 1 - i, 0] = 1.0
+    elif pat == "first_col_zero":
+        B[:, 0] = 0.0
+    elif pat == "leading_zero_rows":
+        B[: n - 1, 0] = 0.0
+        B[0, :] = 0.0
+        B[0, nrhs - 1, 2] = 1.0
+    elif pat == "trailing_zero_rows":
+        B[1:, 0] = 0.0
+        B[n - 1, :] = 0.0
+        B[n - 1, nrhs - 1, 1] = 1.0
+    elif pat == "single_entry":
+        B = np.zeros((n, nrhs, 4))
+        B[n // 2, nrhs - 1, 3] = 1.0
     s = SC[case["sc"]]
     if case["single"] is None:
         T = T * s
